@@ -7,7 +7,7 @@
   exception an operation on `f` raised (incremented by the server step `serveSlot`, reset by `resetBad` when a
   write / close / set_pipelined on `f` raises).
 -/
-import PV.Model.SftpClientInv
+import PV.Model.SftpClientPut
 namespace PV.Props.C29
 open PV PV.SftpClient
 
@@ -26,7 +26,7 @@ theorem rejected_pipelined_write_surfaces_by_close (maxReq nfiles : Nat) (wfault
   obtain ⟨_, hz⟩ := closeFile_good hg hf'
   simp only [stepOp] at hok ⊢
   rw [hok]
-  exact hz hopen hok
+  exact (hz hopen hok).1
 
 /-- **The client never waits for ever** (the client half of C30, proved on the same model): whatever mix of
     pipelined writes, plain writes, other requests, set_pipelined and closes the application issues, on any number
@@ -62,12 +62,10 @@ private theorem writeAt_end (c d : Bytes) : writeAt c c.length d = c ++ d := by
   unfold writeAt zeros
   simp
 
-/-- **Accepted writes reproduce the source** (partial: server side of "normal return ⇒ destination = source";
-    the client side is `rejected_pipelined_write_surfaces_by_close` — a normal return means no write was rejected —
-    and `client_never_hangs`; their composition through the wire order is checked by the differential run and the
-    transfer oracle, not by a Lean theorem).  For every way of cutting the source into chunks (local short reads
-    included): writing the chunks at consecutive offsets into the truncated file yields the chunks' concatenation. -/
-theorem accepted_writes_reproduce_source_partial (c : Bytes) (chunks : List Bytes) :
+/-- Accepted writes reproduce the source (server side, on its own): for every way of cutting the source into chunks
+    (local short reads included), writing the chunks at consecutive offsets into the truncated file yields the
+    chunks' concatenation. -/
+theorem accepted_writes_reproduce_source (c : Bytes) (chunks : List Bytes) :
     applyWrites c (contiguous c.length chunks) = c ++ chunks.flatten := by
   induction chunks generalizing c with
   | nil => simp [applyWrites, contiguous]
@@ -77,6 +75,86 @@ theorem accepted_writes_reproduce_source_partial (c : Bytes) (chunks : List Byte
     have := ih (c ++ d)
     rw [List.length_append] at this
     rw [this, List.append_assoc]
+
+/-! ## the composition: put / putfo -/
+
+/-- **put/putfo returned normally ⇒ destination bytes = source bytes.**
+    `putfo` is: open for writing (empty file), `set_pipelined(True)`, one `write` per chunk read from the source (any
+    chunking, empty chunks included), `close()`; the server answers whenever it likes (`Op.serve` anywhere in the
+    body, and forced whenever the client waits).  Requests travel in FIFO order on the one channel and the server
+    applies accepted writes in arrival order (`wire`).  For every write-fault plan, every plan for other requests,
+    every request-size limit > 0, any number of other open files: if every call up to and including `close()`
+    returned normally, the server's file holds exactly the concatenation of the chunks.
+    (`put` is `putfo` over the local file; the optional `confirm` stat afterwards sends no write and can only raise.) -/
+theorem putfo_normal_return_implies_destination_equals_source (maxReq nfiles : Nat) (hm : 0 < maxReq)
+    (wfaults sfaults : List Nat) (f : Nat) (hf : f < nfiles) (body : List Op) (hbody : ∀ op ∈ body, PutOp f op)
+    (hok : ∀ r ∈ (runOps (init maxReq nfiles wfaults sfaults) (.setPipelined f true :: (body ++ [.close f]))).2, r = .ok) :
+    (runOps (init maxReq nfiles wfaults sfaults) (.setPipelined f true :: (body ++ [.close f]))).1.dest.getD f []
+      = written body := by
+  -- after set_pipelined(True)
+  have hg0 := init_good maxReq nfiles wfaults sfaults
+  have hlen0 : (init maxReq nfiles wfaults sfaults).files.length = nfiles := by simp [init]
+  simp only [runOps] at hok ⊢
+  obtain ⟨_, g1, g2, g3⟩ := stepOp_good (op := .setPipelined f true) hg0 (by rw [hlen0]; exact hf)
+  have hs1 : (stepOp (init maxReq nfiles wfaults sfaults) (.setPipelined f true)).1 =
+      setFile (init maxReq nfiles wfaults sfaults) f (fun x => { x with pipelined := true }) := by
+    simp [stepOp]
+  have hf1 : f < (stepOp (init maxReq nfiles wfaults sfaults) (.setPipelined f true)).1.files.length := by
+    rw [g2, hlen0]; exact hf
+  have hp1 : PutInv f [] ([] : Bytes).length false (stepOp (init maxReq nfiles wfaults sfaults) (.setPipelined f true)).1 := by
+    rw [hs1]
+    have hgf : getFile (setFile (init maxReq nfiles wfaults sfaults) f (fun x => { x with pipelined := true })) f
+        = { getFile (init maxReq nfiles wfaults sfaults) f with pipelined := true } :=
+      getFile_setFile_self (by rw [hlen0]; exact hf)
+    have hnew : getFile (init maxReq nfiles wfaults sfaults) f = newFile := by
+      simp [getFile, init, List.getD_eq_getElem?_getD, List.getElem?_replicate, hf]
+    refine ⟨by simp [setFile, init, hf], by simp [setFile, init, hf], by simp [setFile, init, hf], ?_, ?_, ?_, ?_, ?_, ?_⟩
+    · rw [hgf]
+    · rw [hgf, hnew]; rfl
+    · rw [hgf, hnew]; rfl
+    · intro sl hsl; simp [setFile, init] at hsl
+    · simp [setFile, init]
+    · intro _
+      simp [setFile, init, pend, pdata, contig, List.getD_eq_getElem?_getD, List.getElem?_replicate, hf]
+  -- the body and the close
+  rw [runOps_append] at hok ⊢
+  simp only at hok ⊢
+  have hres_body : ∀ r ∈ (runOps (stepOp (init maxReq nfiles wfaults sfaults) (.setPipelined f true)).1 body).2, r = .ok := by
+    intro r hr
+    exact hok r (List.mem_cons_of_mem _ (List.mem_append_left _ hr))
+  obtain ⟨b1, b2, b3⟩ := body_run body _ [] g1 hf1 (by rw [g3]; exact hm) hp1 hbody hres_body
+  simp only [List.nil_append] at b3
+  generalize (runOps (stepOp (init maxReq nfiles wfaults sfaults) (.setPipelined f true)).1 body).1 = s2 at b1 b2 b3 hok ⊢
+  have hclose : (stepOp s2 (.close f)).2 = .ok := by
+    apply hok
+    apply List.mem_cons_of_mem
+    apply List.mem_append_right
+    simp [runOps]
+  simp only [runOps]
+  simp only [stepOp] at hclose ⊢
+  rw [hclose]
+  obtain ⟨_, hz⟩ := closeFile_good b1 b2
+  obtain ⟨hbad, hnone⟩ := hz b3.clo hclose
+  have hp3 := putInv_closeFile b3 b2
+  obtain ⟨⟨_, hgood, _, _, _⟩, _⟩ := closeFile_good b1 b2
+  have hg3 := hgood hclose
+  have hrej : (closeFile s2 f).1.rejTot.getD f 0 = 0 := by rw [hp3.same]; exact hbad
+  obtain ⟨d1, _⟩ := hp3.data hrej
+  have hpend : pend f (closeFile s2 f).1.wire = [] := by
+    apply pend_nil_of
+    intro sl hsl off d hk
+    have hown := hg3.own sl hsl
+    unfold OwnOK at hown
+    cases ho : sl.owner with
+    | none => rw [ho] at hown; cases hown
+    | some g =>
+      rw [ho] at hown
+      obtain ⟨_, off', d', hk'⟩ := hown
+      rw [hk] at hk'
+      cases hk'
+      exact hnone sl hsl ho
+  rw [hpend] at d1
+  simpa [pdata, resetBad] using d1
 
 /-- non-vacuity 1: a pipelined write is rejected (plan `[0, 3, 0]`), the ghost counter registers it, close raises the
     saved error and resets the counter. -/
